@@ -79,7 +79,13 @@ func rmHist(args []string) error {
 	procs, _ := strconv.Atoi(args[4])
 	runtime.GOMAXPROCS(procs)
 	rng := rand.New(rand.NewSource(envSeed()))
-	const nkeys = 8
+	nkeys := 8
+	// wide mode: one group of 40 rows, full-range reads by the first three clients and full-range updates by the
+	// others: long scans that overlap each other and whole multi-row updates (torn reads need two readers + a writer)
+	wide := os.Getenv("VERIF_RM_WIDE") != ""
+	if wide {
+		nkeys = 40
+	}
 	// optionally record the storage-boundary events of the concurrent run (C08 under concurrency): the recording
 	// wrapper's mutex totally orders page writes and log writes
 	var iotw *trace.Writer
@@ -138,7 +144,7 @@ func rmHist(args []string) error {
 		recs := make([][]*callRec, nclients)
 		var wg sync.WaitGroup
 		stuck := int32(0)
-		withInserts := w%3 == 2 // insert windows check exactly-once; the serial-order claim is for windows without them
+		withInserts := w%3 == 2 && !wide // insert windows check exactly-once; the serial-order claim is for windows without them
 		for ci := 0; ci < nclients; ci++ {
 			wg.Add(1)
 			seed := rng.Int63()
@@ -151,6 +157,13 @@ func rmHist(args []string) error {
 					b := a + r.Intn(nkeys-a)
 					var sql string
 					x := r.Intn(10)
+					if wide {
+						a, b = 0, nkeys-1
+						x = 9
+						if ci >= 3 {
+							x = 0
+						}
+					}
 					switch {
 					case withInserts && x < 5:
 						rec.k, rec.a = "ins", int(atomic.AddInt64(&nextKey, 1))
